@@ -10,7 +10,7 @@ RULE = ("SingleObject.tla: the reusable-buffer writer as a state machine (ok / r
         " history on SpecificSingleObjectWriter/Reader (write_value and write_ref, failing sinks in between); every successful message is"
         " judged by Trace_SingleObject.tla (header = C3 01 + LE CRC-64-AVRO of the canonical form computed in TLA+, datum parsed by the"
         " independent parser, both readers return the value); for a quarter of the histories every single-bit alteration (80) and every"
-        " truncation (10) of the header must be rejected. Non-trivial = event is a write after an earlier failed call, or a damaged message;"
+        " truncation (10) of the header must be rejected - always for the schemas whose datum is empty (null, empty record, record of nulls: the message is the header alone). Non-trivial = event is a write after an earlier failed call, or a damaged message;"
         " distinct = distinct event hashes.")
 
 
@@ -42,6 +42,13 @@ def run(prop, tier, seed, replay=None):
     rnd = work / "rand.scn"
     vf.avh(["datum-gen", "--seed", seed, "--count", 40 if tier == "quick" else 400, "--depth", 3, "--out", rnd])
     lines += [l for l in rnd.read_text().splitlines() if l.strip()]
+    # schemas whose datum is zero bytes long: the message is the header alone
+    nul = {"k": "null"}
+    er = {"k": "record", "name": "ns.Empty", "fields": []}
+    rn = {"k": "record", "name": "ns.Nulls", "fields": [{"name": "a", "type": nul}, {"name": "b", "type": er}]}
+    for sch, val in ((nul, {"t": "null"}), (er, {"t": "record", "fields": []}),
+                     (rn, {"t": "record", "fields": [["a", {"t": "null"}], ["b", {"t": "record", "fields": []}]]})):
+        lines.append(json.dumps({"s": sch, "v": val, "layouts": []}))
     scn = work / "scn.ndjson"
     scn.write_text("\n".join(lines) + "\n")
     ev_file = work / "events.ndjson"
